@@ -384,6 +384,10 @@ func init() {
 		Old:    "\t\t} else if !isWhitespace(ch) {\n",
 		New:    "\t\t} else if !isWhitespace(ch) && ch >= ' ' {\n",
 		Expect: "(*parser.scanner).skipWhitespace | skips-only-what-it-classified"})
+	addFixture(Fixture{Name: "cut-continuation-sees-the-annotation-not-the-callee-type", Rule: "R-CUT-SPLIT", File: "process/typechecker.go",
+		Old:    "\t\t\tgammaRightNameTypesCtx[p.new_name_c.Ident] = NamesType{Type: functionSignatureType}\n",
+		New:    "\t\t\tgammaRightNameTypesCtx[p.new_name_c.Ident] = NamesType{Type: p.new_name_c.Type}\n",
+		Expect: "(*process.NewForm).typecheckForm | cut-split#1"})
 	addFixture(Fixture{Name: "line-table-copied-per-newline", Rule: "R-PER-RUNE-CONST", File: "parser/scanner.go",
 		Old:    "\t\ts.pos.Lines = append(s.pos.Lines, s.pos.Char)",
 		New:    "\t\ts.pos.Lines = append(append([]int{}, s.pos.Lines...), s.pos.Char)",
